@@ -149,6 +149,23 @@ def scale (h : Heap) (o : Obj) (c : Rat) : Heap × Obj :=
     | none => (h1, none)
   (h2, { o with se3? := se3', pos? := pos' })
 
+/-- an in-place variant of the matrix half of `scale()` — `for p in self._poses_se3: p[:3, 3] *= s` — which is *not* what the
+code does; kept as a counterexample: it writes once per list slot, so an array that occurs in several slots is scaled
+several times -/
+def scaleWrite (c : Rat) : Heap → List Nat → Heap
+  | h, [] => h
+  | h, a :: as => scaleWrite c (h.write a (.mat (scalePose c (h.mat a)))) as
+
+def scaleInplace (h : Heap) (o : Obj) (c : Rat) : Heap × Obj :=
+  let h1 := scaleWrite c h (o.se3?.getD [])
+  let r := optAllocPos h1 o c
+  (r.1, { o with pos? := r.2 })
+where
+  optAllocPos (h1 : Heap) (o : Obj) (c : Rat) : Heap × Option Nat :=
+    match o.pos? with
+    | some a => ((h1.alloc (.vecs ((h1.vecs a).map (V3.smul c)))).1, some (h1.alloc (.vecs ((h1.vecs a).map (V3.smul c)))).2)
+    | none => (h1, none)
+
 /-- a new array derived from an optional existing one -/
 def optAlloc (h : Heap) (x : Option Nat) (f : Nat → Val) : Heap × Option Nat :=
   match x with
